@@ -20,7 +20,7 @@ from . import common as C
 
 OCAML = ["c18cluster"]
 GO = ["cluster"]
-FILES = ["model/ClusterGo.v", "proofs/ClusterCensus.v"]
+FILES = ["model/ClusterGo.v", "proofs/ClusterLive.v", "proofs/ClusterCensus.v"]
 HOOK = "runnables/httpcluster/verif_export.go"
 CORPUS = os.path.join(C.VERIF, "corpus", "C18", "cluster.txt")
 
@@ -189,8 +189,9 @@ def leg(run):
     jobs = str(min(C.NPROC, 12))
     if os.path.exists(CORPUS):
         one_leg(run, ["-file", CORPUS, "-jobs", "4"], stats, samples)
-    plan = ([("census", 130), ("censuslong", 16), ("mixed", 60), ("collision", 24), ("delay", 16), ("wait", 16)] if quick else
-            [("census", 3000), ("censuslong", 400), ("mixed", 1500), ("settled", 500), ("collision", 500), ("delay", 300), ("wait", 300)])
+    plan = ([("census", 130), ("censuslong", 16), ("mixed", 60), ("collision", 24), ("delay", 16), ("wait", 16), ("selfexit", 24)] if quick else
+            [("census", 3000), ("censuslong", 400), ("mixed", 1500), ("settled", 500), ("collision", 500), ("delay", 300), ("wait", 300),
+             ("selfexit", 400)])
     for k, (fam, n) in enumerate(plan):
         done = 0
         while done < n:
